@@ -1,9 +1,145 @@
-import PySMT.Proofs.C19Main
+import PySMT.Proofs.C19Examples
+/-!
+# C19 — Portfolio: property theorems
+
+Model: `PySMT/Impl/Portfolio.lean` (transition system of `pysmt/solvers/portfolio.py` with the F25 repair).
+All theorems quantify over every reachable state of the system, i.e. over every schedule (every relative completion
+order, every gap, a loser finishing while the winner is being selected), every number of members `cfg.n`, every
+assignment of behaviours `cfg.beh : call → member → answer v | raise e | crash`, and any sequence of
+`solve / get_model / get_value / push / pop` calls.  `Inev cfg P s` = on every schedule from `s`, `P` is reached
+(no schedule stops earlier or runs for ever).
+
+OS-level assumptions (see the header of the model): A1 `cfg.os.killAtomic = true` is an explicit hypothesis of the
+theorems about `get_model / get_value`; it is necessary (`killAtomic_needed`).  A2 (a message is flushed before an
+orderly exit and before `is_alive()` turns false), A3 (reliable FIFO channels), A4 (every member's `solve()` ends)
+are built into the step relation and cannot be stated in Lean.  The real scheduler is sampled by the harness, not
+enumerated: the theorems cover all schedules of the model.
+-/
 namespace PySMT.Portfolio.C19
 open PySMT.Portfolio
 
+/-- The verdict returned by `solve()` is the answer of the member that is kept for later queries. -/
 theorem verdict_in_answers (cfg : Cfg) (s : State) (h : Reach cfg s) (v : Bool) (w : Nat)
     (hp : s.p = .returned v w ∨ ∃ q, s.p = .awaiting v w q) : w < cfg.n ∧ cfg.beh s.cycle w = .answer v :=
   PySMT.Portfolio.verdict_in_answers cfg s h v w hp
+
+/-- With agreeing members the verdict is the common one. -/
+theorem verdict_is_common (cfg : Cfg) (truth : Nat → Bool)
+    (hagree : ∀ c i v, i < cfg.n → cfg.beh c i = .answer v → v = truth c)
+    (s : State) (h : Reach cfg s) (v : Bool) (w : Nat) (hp : s.p = .returned v w) : v = truth s.cycle :=
+  let ⟨hw, hb⟩ := PySMT.Portfolio.verdict_in_answers cfg s h v w (Or.inl hp)
+  hagree s.cycle w v hw hb
+
+/-- Failing / unknown / dying members do not matter as long as one member answers (`exit_on_exception` off):
+    on every schedule `solve()` returns, with the answer of a member. -/
+theorem failures_ignored (cfg : Cfg) (s : State) (h : Reach cfg s) (hs : inSolve s.p = true) (he : cfg.eoe = false)
+    (hans : ∃ i, i < cfg.n ∧ ∃ v, cfg.beh s.cycle i = .answer v) :
+    Inev cfg (fun t => ∃ v w, t.p = .returned v w ∧ w < cfg.n ∧ cfg.beh s.cycle w = .answer v) s :=
+  PySMT.Portfolio.failures_ignored cfg s h hs he hans
+
+/-- The parent is never stuck inside `solve()`. -/
+theorem no_deadlock (cfg : Cfg) (s : State) (h : Reach cfg s) (hs : inSolve s.p = true) : ∃ t, IStep cfg s t :=
+  PySMT.Portfolio.no_deadlock cfg s h hs
+
+/-- Every `solve()` call ends on every schedule (returns or raises). -/
+theorem solve_terminates (cfg : Cfg) (s : State) (h : Reach cfg s) (hs : inSolve s.p = true) :
+    Inev cfg (fun t => (∃ v w, t.p = .returned v w) ∨ ∃ e, t.p = .raised e) s :=
+  PySMT.Portfolio.solve_terminates cfg s h hs
+
+/-- If every member fails, `solve()` raises on every schedule (F25: false for the unrepaired loop). -/
+theorem all_fail_error (cfg : Cfg) (s : State) (h : Reach cfg s) (hs : inSolve s.p = true)
+    (hfail : ∀ i, i < cfg.n → ∀ v, cfg.beh s.cycle i ≠ .answer v) :
+    Inev cfg (fun t => ∃ e, t.p = .raised e ∧ errOK cfg s.cycle e ∧ (cfg.eoe = false → e = .allFailed)) s :=
+  PySMT.Portfolio.all_fail_error cfg s h hs hfail
+
+/-! The next four theorems are `_partial`: the property promises them for the real system, the theorems need the
+    OS-level assumption A1 (`killAtomic`: a terminated member cannot swallow a later control message) as a hypothesis.
+    A1 cannot be proved in Lean, it is necessary (`killAtomic_needed`), and Linux does not guarantee it for a reader
+    that is between system-call entry and its first look at the socket queue when the signal arrives. -/
+
+/-- A1 ⇒ replies to `get_model / get_value` come from the member whose answer was returned, and answer the
+    query that was asked. -/
+theorem serve_from_winner_partial (cfg : Cfg) (hA : cfg.os.killAtomic = true) (s : State) (h : Reach cfg s) (v : Bool) (w : Nat) :
+    (s.p = .returned v w → ∀ x ∈ s.served, x.1 = w) ∧
+    (∀ q, s.p = .awaiting v w q → (∀ x ∈ s.served, x.1 = w) ∧ ∀ r ∈ s.reply, r = (w, q)) :=
+  PySMT.Portfolio.serve_from_winner cfg hA s h v w
+
+/-- A1 ⇒ `get_model / get_value` is answered on every schedule. -/
+theorem query_answered_partial (cfg : Cfg) (hA : cfg.os.killAtomic = true) (s : State) (h : Reach cfg s) (v : Bool) (w q : Nat)
+    (hp : s.p = .awaiting v w q) : Inev cfg (fun t => t.p = .returned v w ∧ ∀ x ∈ t.served, x.1 = w) s :=
+  PySMT.Portfolio.query_answered cfg hA s h v w q hp
+
+/-- A1 ⇒ when `solve()` is over, no member but the winner is left. -/
+theorem losers_dead_partial (cfg : Cfg) (hA : cfg.os.killAtomic = true) (s : State) (h : Reach cfg s) :
+    (∀ v w, s.p = .returned v w → ∀ j, j ≠ w → ∀ m, s.ms[j]? = some m → dead m = true) ∧
+    (∀ e, s.p = .raised e → ∀ (j : Nat) m, s.ms[j]? = some m → alive m = false) :=
+  PySMT.Portfolio.losers_dead cfg hA s h
+
+/-- A1 + correct members (those that answer give `truth c`, and for "sat" their model is `good`) ⇒ the verdict is
+    `truth c` and all models / values obtained afterwards come from one member whose model satisfies the assertions. -/
+theorem model_satisfies_partial (cfg : Cfg) (hA : cfg.os.killAtomic = true) (truth : Nat → Bool) (good : Nat → Nat → Prop)
+    (hmem : ∀ c i v, i < cfg.n → cfg.beh c i = .answer v → v = truth c ∧ (v = true → good c i))
+    (s : State) (h : Reach cfg s) (v : Bool) (w : Nat) (hp : s.p = .returned v w) :
+    v = truth s.cycle ∧ (v = true → good s.cycle w ∧ ∀ x ∈ s.served, x.1 = w) :=
+  PySMT.Portfolio.model_satisfies cfg hA truth good hmem s h v w hp
+
+/-- The closed form used by the driver is sound: the outcome of `solve()` number `c` is in `allowed cfg c`
+    (in particular never "blocked", by `solve_terminates`). -/
+theorem outcome_allowed (cfg : Cfg) (s : State) (h : Reach cfg s) :
+    (∀ v w, s.p = .returned v w → Outcome.verdict v ∈ allowed cfg s.cycle) ∧
+    (∀ e, s.p = .raised e → Outcome.error e ∈ allowed cfg s.cycle) :=
+  PySMT.Portfolio.outcome_allowed cfg s h
+
+/-- … and exact: every element of `allowed` is the outcome of some schedule. -/
+theorem allowed_reachable (cfg : Cfg) (c : Nat) (o : Outcome) (ho : o ∈ allowed cfg (c + 1)) :
+    ∃ s, Reach cfg s ∧ s.cycle = c + 1 ∧ quiescent s.p = true ∧ outcomeOf s = o :=
+  PySMT.Portfolio.allowed_reachable cfg c o ho
+
+/-- The explorer of `Drivers/C19.lean` walks exactly the step relation. -/
+theorem isuccs_iff (cfg : Cfg) (s t : State) : t ∈ isuccs cfg s ↔ IStep cfg s t :=
+  PySMT.Portfolio.isuccs_iff cfg s t
+
+/-- A1 is necessary: without it there is a reachable state in which `get_model` waits for a reply that will
+    never come (the terminated loser swallowed the request). -/
+theorem killAtomic_needed :
+    ∃ s, Reach (cfgTT false) s ∧ (∃ v w q, s.p = .awaiting v w q) ∧ ¬ ∃ t, IStep (cfgTT false) s t :=
+  ⟨ttStuck, reach_ttStuck, ⟨true, 0, 0, by decide⟩,
+    (isuccs_empty_iff (cfgTT false) ttStuck).mp (by decide)⟩
+
+/-! ## non-vacuity: the hypotheses are satisfiable and the interesting states exist -/
+
+-- `failures_ignored`: a reachable state inside `solve()` of a portfolio where one member answers and one fails
+example : Reach cfgTU (fresh cfgTU init) ∧ inSolve (fresh cfgTU init).p = true ∧ cfgTU.eoe = false ∧
+    ∃ i, i < cfgTU.n ∧ ∃ v, cfgTU.beh (fresh cfgTU init).cycle i = .answer v :=
+  ⟨reach_fresh_init _, rfl, rfl, 0, by decide, true, rfl⟩
+
+-- `all_fail_error`: a reachable state inside `solve()` of a portfolio whose members all fail
+example : Reach (cfgRU false) (fresh (cfgRU false) init) ∧ inSolve (fresh (cfgRU false) init).p = true ∧
+    ∀ i, i < (cfgRU false).n → ∀ v, (cfgRU false).beh (fresh (cfgRU false) init).cycle i ≠ .answer v :=
+  ⟨reach_fresh_init _, rfl, by intro i _ v; simp only [cfgRU]; split <;> simp⟩
+
+-- … and it does end with the "all failed" error / with a member's exception under exit_on_exception
+example : ∃ s, Reach (cfgRU false) s ∧ s.p = .raised .allFailed :=
+  let ⟨s, h, _, _, ho⟩ := PySMT.Portfolio.allowed_reachable (cfgRU false) 0 (.error .allFailed) (by decide)
+  ⟨s, h, by unfold outcomeOf at ho; split at ho <;> simp_all⟩
+example : Outcome.error (.member 0 .solverError) ∈ allowed (cfgRU true) 1 ∧
+    Outcome.error (.member 1 .unknown) ∈ allowed (cfgRU true) 1 ∧ Outcome.error .allFailed ∉ allowed (cfgRU true) 1 := by
+  decide
+
+-- `verdict_in_answers`, `serve_from_winner`, `model_satisfies`: a reachable state in which `solve()` has returned
+-- although both members were blocked on the shared control pipe, and a query has been answered by the winner
+example : Reach (cfgTT true) ttServed ∧ ttServed.p = .returned true 0 ∧ ttServed.served = [(0, 0)] :=
+  ⟨reach_ttServed, by decide, by decide⟩
+
+-- the hypothesis of `model_satisfies` about the members is satisfiable
+example : ∀ c i v, i < cfgTU.n → cfgTU.beh c i = .answer v → v = (fun _ => true) c ∧ (v = true → (fun _ i => i = 0) c i) := by
+  intro c i v _ hb
+  simp only [cfgTU] at hb
+  split at hb <;> simp_all
+
+-- `query_answered`: a reachable state in which the parent waits for a reply
+example : Reach (cfgTT true) (askState (ttReturned true) true 0 0) ∧
+    (askState (ttReturned true) true 0 0).p = .awaiting true 0 0 :=
+  ⟨reach_ask _ _ (reach_ttReturned true) true 0 0 (by decide), rfl⟩
 
 end PySMT.Portfolio.C19
